@@ -54,7 +54,7 @@ pub fn run_c02(args: &Args) -> i32 {
   rep.assume("bounded progress restatement: convergence (reader handed over every sample the writer holds for it, writer sees ack base = last+1, no repair pending) within 3 + 2*held rounds after faults stop; then 3 further rounds without any datagram");
   rep.assume("logical time: timers are not polled; the 10 s wall-clock fragment-assembly garbage collection cannot fire within a case");
   rep.assume("writer KeepAll, no cache cleaning during the case, so 'still in the writer's history' = everything written");
-  let ncases = args.scale(20_000, 800_000);
+  let ncases = args.scale(20_000, 6_000_000);
   let acc = link_cases(args, LProp::C02, ncases, 0x0202);
   rep.require("link_cases_converged", 1000);
   rep.require("link_datagrams_dropped", 1000);
